@@ -477,6 +477,10 @@ func c08Programs(thorough bool) []c08Prog {
 			compactors = append(compactors, ops)
 			// compaction followed by new output (the tail may have been reached)
 			compactors = append(compactors, append(append([]c08Op(nil), ops...), c08Op{Kind: "add", Id: next1}))
+			if n == len(init) {
+				// the whole stream is compacted and two new batches arrive before a parked reader runs again
+				compactors = append(compactors, append(append([]c08Op(nil), ops...), c08Op{Kind: "add", Id: next1}, c08Op{Kind: "add", Id: next2}))
+			}
 		}
 		compactors = append(compactors, []c08Op{{Kind: "del", Id: 5}}, []c08Op{{Kind: "del", Id: 99}})
 		for _, x := range xs {
@@ -492,6 +496,9 @@ func c08Programs(thorough bool) []c08Prog {
 					ps = append(ps, c08Prog{Name: "reader||compactor", Initial: init, Threads: [][]c08Op{rd, cp}})
 					if ri == 0 || thorough {
 						ps = append(ps, c08Prog{Name: "reader||compactor||adder", Initial: init, Threads: [][]c08Op{rd, cp, adders[0]}})
+					}
+					if ri == 0 && len(cp) <= 2 && cp[len(cp)-1].Kind == "del" {
+						ps = append(ps, c08Prog{Name: "reader||compactor||adder2", Initial: init, Threads: [][]c08Op{rd, cp, adders[1]}})
 					}
 				}
 			}
